@@ -174,7 +174,9 @@ fn parse_string(input: &str, span: Span) -> Result<String, Error> {
             }
             b'u' => {
                 if let Some(end_brace) = rem.bytes().position(|b| b == b'}') {
-                    let c: char = u32::from_str_radix(&rem[1..end_brace], 16)
+                    // rustc allows `_` separators between the hex digits of `\u{...}`
+                    let digits: String = rem[1..end_brace].chars().filter(|&c| c != '_').collect();
+                    let c: char = u32::from_str_radix(&digits, 16)
                         .ok()
                         .and_then(std::char::from_u32)
                         .ok_or_else(|| {
